@@ -186,7 +186,9 @@ def ins_part(scratch, tier, seed, v, stats):
             v.violation("ins:checkpoint_written_mid_iteration",
                         f"{where}: the handler wrote a checkpoint although the importance sampler cannot "
                         f"checkpoint mid iteration", replay)
-        if len(h["codes"]) < 2 or h["codes"][-1] != 0:
+        if h["codes"][-1] == -9:
+            v.mismatch(f"{where}: harness timeout (codes {h['codes']})")
+        elif len(h["codes"]) < 2 or h["codes"][-1] != 0:
             err = ""
             try:
                 err = open(h["events"][-1] + ".err").read().strip().splitlines()[-1]
@@ -277,7 +279,9 @@ def main(tier: str) -> int:
             stats["shapes"][h["shape"]] = stats["shapes"].get(h["shape"], 0) + 1
             if not ck:
                 v.violation("no_checkpoint_left", f"{where}: the handler left no checkpoint", replay)
-            if len(h["codes"]) < 2 or h["codes"][-1] != 0:
+            if h["codes"][-1] == -9:
+                v.mismatch(f"{where}: harness timeout (codes {h['codes']})")
+            elif len(h["codes"]) < 2 or h["codes"][-1] != 0:
                 err = ""
                 try:
                     err = open(h["events"][-1] + ".err").read().strip().splitlines()[-1]
